@@ -419,7 +419,7 @@ func trieSeq(run *ev.Run, idx int, nblocks int) (*viol, []string) {
 func chainRun(t *testing.T, run *ev.Run, idx, nblocks int) {
 	w := vchain.DefaultWeights
 	w.Run, w.Payment, w.GasTransfer = 30, 8, 14
-	h := vchain.BuildHistory(t, vchain.HistoryCfg{Idx: 1200 + idx, Blocks: nblocks, Keep: true, Weights: &w})
+	h := vchain.BuildHistory(t, vchain.HistoryCfg{Idx: 1200 + idx, Blocks: nblocks, Keep: true, Weights: &w, Echidna: idx%2 == 1})
 	defer h.P.Close()
 	if h.P.Rejected != nil {
 		run.Violation("producer-rejected-own-block", fmt.Sprint("chain", idx), h.P.Rejected.Error(), nil)
